@@ -440,3 +440,70 @@ def proxy(ctx, prefix, needs=False):
         def need(self, rule, *a, **k):
             return ctx.need(self._nm(rule), *a, **k) if needs else None
     return Proxy()
+
+
+def mode_copy_rule(ctx, rule, why):
+    """when the planner selects a mode itself, everything the request later needs from the mode is copied onto the request, the same
+    way wherever that happens: all copy blocks `req.<field> = mode['<key>']` in compute_path_with_disjunction assign the same
+    (field, key) pairs, and they include the equalisation offset, the penalties, the baud rate, the OSNR threshold and the tx OSNR"""
+    repo = ctx.repo
+    f = repo.func('gnpy.topology.request', 'compute_path_with_disjunction')
+    blocks = {}
+    for n in ast.walk(f.node):
+        for fld in ('body', 'orelse'):
+            blk = getattr(n, fld, None)
+            if not isinstance(blk, list):
+                continue
+            pairs = []
+            for st in blk:
+                if isinstance(st, ast.Assign) and isinstance(st.targets[0], ast.Attribute) and isinstance(st.value, ast.Subscript) and \
+                        isinstance(st.value.slice, ast.Constant) and isinstance(st.value.value, ast.Name) and isinstance(st.targets[0].value, ast.Name):
+                    pairs.append((st.targets[0].attr, st.value.slice.value, st.value.value.id, st))
+            if len(pairs) >= 3 and len({p_[2] for p_ in pairs}) == 1:
+                blocks[id(blk)] = pairs
+        if isinstance(n, ast.Try):
+            for h in n.handlers:
+                pairs = []
+                for st in h.body:
+                    if isinstance(st, ast.Assign) and isinstance(st.targets[0], ast.Attribute) and isinstance(st.value, ast.Subscript) and \
+                            isinstance(st.value.slice, ast.Constant) and isinstance(st.value.value, ast.Name):
+                        pairs.append((st.targets[0].attr, st.value.slice.value, st.value.value.id, st))
+                if len(pairs) >= 3 and len({p_[2] for p_ in pairs}) == 1:
+                    blocks[id(h.body)] = pairs
+    sets = [frozenset((a, k) for a, k, _, _ in pr) for pr in blocks.values()]
+    s_ = site(f)
+    ctx.check(rule, f'{s_} {len(sets)} copy blocks agree', len(sets) >= 2 and len(set(sets)) == 1, key(f, 'mode-copy-agree'),
+              f'the blocks that copy the selected mode onto the request do not assign the same fields: {why}',
+              ' | '.join(str(sorted(x ^ sets[0])) for x in sets[1:]) if sets else '')
+    need = {('offset_db', 'equalization_offset_db'), ('penalties', 'penalties'), ('baud_rate', 'baud_rate'), ('OSNR', 'OSNR'),
+            ('tx_osnr', 'tx_osnr'), ('bit_rate', 'bit_rate'), ('tsp_mode', 'format')}
+    for i, st_ in enumerate(sets):
+        ctx.check(rule, f'{s_} copy block {i + 1} complete', need <= st_, key(f, f'mode-copy-complete|{i}'),
+                  f'a block that copies the selected mode onto the request misses {sorted(need - st_)}: {why}')
+    return len(sets)
+
+
+def arg_roles_rule(ctx, rule, funcs, why):
+    """a variable that carries the name of one of the callee's parameters is handed to THAT parameter: `f(to_degree, from_degree)`
+    for `def f(from_degree, to_degree)` is reported (arguments of resolved package calls; canonical positional form)"""
+    n = 0
+    for f in funcs:
+        for c in ast.walk(f.node):
+            if not isinstance(c, ast.Call):
+                continue
+            ps = getattr(c, '_callee_params', None)
+            if not ps:
+                continue
+            names = [a.id if isinstance(a, ast.Name) else None for a in c.args]
+            kw = {k.arg: (k.value.id if isinstance(k.value, ast.Name) else None) for k in c.keywords if k.arg}
+            got = {ps[i]: nm for i, nm in enumerate(names) if i < len(ps)}
+            got.update(kw)
+            for p_, a in got.items():
+                if a is None or a == p_ or a not in ps:
+                    continue
+                n += 1
+                # `a` is the name of another parameter: fine only if that parameter receives the same variable too
+                ctx.check(rule, f'{site(f, c)} {ast.unparse(c.func)[:40]}', got.get(a) == a, f'{f.qual}|arg-role|{ast.unparse(c.func)[:30]}|{p_}|{a}',
+                          f'{ast.unparse(c)[:90]}: the variable {a} is handed to parameter {p_}, while parameter {a} receives '
+                          f'{got.get(a)}: the two roles are exchanged: {why}')
+    return n
